@@ -44,6 +44,7 @@ def _case(draw, tier):
     elif kind == "injected":
         fault["point"] = draw(st.integers(0, 10 ** 6))
         fault["when"] = draw(st.sampled_from(["before", "after"]))
+        fault["exc"] = draw(st.sampled_from(["exception", "exception", "interrupt"]))
     return {"recipe": recipe, "calc": calc, "fault": fault, "tap_table": draw(st.booleans()), "sel": draw(st.integers(0, 1000))}
 
 
@@ -81,7 +82,7 @@ FIXED_RECIPES = [
             {"t": "xward", "bus": 4, "ps_mw": 0.3, "qs_mvar": 0.1, "pz_mw": 0.2, "qz_mvar": 0.05, "r_ohm": 0.5, "x_ohm": 4.0, "vm_pu": 1.0},
             {"t": "dcline", "from_bus": 0, "to_bus": 1, "p_mw": 2.0, "loss_percent": 0.5, "loss_mw": 0.0, "vm_from_pu": 1.0, "vm_to_pu": 1.0}]},
 ]
-ENUM_CALCS = {"quick": [(0, "runpp"), (0, "runopp"), (0, "calc_sc_1ph")],
+ENUM_CALCS = {"quick": [(0, "runpp"), (0, "runopp"), (0, "calc_sc_1ph"), (0, "run_contingency")],
               "thorough": [(r, c) for r in (0, 1) for c in CALCS]}
 _ENUM_CACHE = {}
 
@@ -107,7 +108,8 @@ def enumerate_cases(tier):
         except Exception:
             trace = []
         for name, n, when in faults.distinct_points(trace):
-            cases.append(dict(base, fault={"kind": "injected", "name": name, "n": n, "when": when}))
+            cases.append(dict(base, fault={"kind": "injected", "name": name, "n": n, "when": when,
+                                            "exc": "interrupt" if len(cases) % 3 == 2 else "exception"}))
     _ENUM_CACHE[tier] = cases
     return cases
 
@@ -243,7 +245,8 @@ def runner(calc, what):
             estimate(net, init="flat")
         elif calc == "run_contingency":
             from pandapower.contingency import run_contingency
-            run_contingency(net, {"line": {"index": list(net.line.index)}})
+            kw = {"raise_errors": True} if what in ("overload", "df-zero") else {}
+            run_contingency(net, {"line": {"index": list(net.line.index)}}, **kw)
         elif calc == "run_control":
             from pandapower.control import run_control
             run_control(net)
@@ -292,7 +295,7 @@ def check(case):
             name, n = fault["name"], fault["n"]
         else:
             name, n = trace[fault["point"] % len(trace)]
-        plan = (name, n, fault["when"])
+        plan = (name, n, fault["when"], fault.get("exc", "exception"))
         if name in CLEANUP_CODE and fault["when"] == "before":
             # a crash on entry of the restoring code itself cannot be recovered by that code: counted, not judged
             res.skipped = "fault-inside-cleanup-code"
@@ -308,8 +311,10 @@ def check(case):
     if plan is not None:
         if not st_.fired:
             res.label("fault-not-reached")
-        elif not isinstance(raised, faults.InjectedFault):
+        elif not isinstance(raised, (faults.InjectedFault, faults.InjectedInterrupt)):
             res.label("fault-swallowed")
+        if plan[3] == "interrupt":
+            res.label("fault:interrupt(BaseException)")
     diffs = oracles.compare_snapshot(snap, net)
     if diffs:
         res.fail(classify(diffs, raised is not None), calc=calc, diffs=diffs[:6],
